@@ -11,7 +11,7 @@
 -/
 import EG.Lemmas.AdaptersStack
 namespace EG.C03
-open EG EG.Rect
+open EG EG.Rect EG.Tgt
 
 /-! ### The cropping colour iterator -/
 
